@@ -1,5 +1,6 @@
 import Driver.Stream
 import Obao.Model.ACLSpec
+import Obao.Model.ControlGroup
 /-!
 Driver stream `acl` (stateful). Lines (tab-separated fields):
 
@@ -10,6 +11,8 @@ Driver stream `acl` (stateful). Lines (tab-separated fields):
   entry) into a slot; overrides `k:i:off;…` first set `Paths[i].Expiration` of the k-th attached object to now+off
 * `allow <slot> <cc> <op> <pathhex> <data> <wrap>` — `AllowOperation`
 * `caps <slot> <pathhex>` — `Capabilities`
+* `cgmerge <cg>…` — the control group `NewACL` stores for ONE pattern whose stanzas (one per attached policy, in this
+  order) carry these control groups: cg = `-` | `ttl:self:f1+f2`; answers `nocg` | `cg:<ttl>:<self>:<sorted factor names>`
 -/
 namespace Driver.ACL
 open Obao Obao.ACL Obao.ACLSpec
@@ -135,8 +138,28 @@ def applyOverride (ps : List (Option Policy)) (ov : Nat × Nat × Option Int) : 
       p.map fun p => { p with paths := p.paths.mapIdx fun i r => if i = ov.2.1 then { r with expiration := ov.2.2 } else r }
     else p
 
+def parseCG? (s : String) : Option (Option Obao.ControlGroup.CG) :=
+  if s == "-" then some none else
+  match s.splitOn ":" with
+  | [t, sf, fs] => match t.toNat? with
+    | some t => some (some { ttl := t, self := sf == "1", factors := if fs.isEmpty then [] else fs.splitOn "+" })
+    | none => none
+  | _ => none
+
+def insSorted (x : String) : List String → List String
+  | [] => [x]
+  | y :: ys => if x ≤ y then x :: y :: ys else y :: insSorted x ys
+
+def showCG : Option Obao.ControlGroup.CG → String
+  | none => "nocg"
+  | some c => s!"cg:{c.ttl}:{if c.self then 1 else 0}:{"+".intercalate (c.factors.foldr insSorted [])}"
+
 def step (spec : Bool) (st : St) (fs : List String) : St × String :=
   match fs with
+  | "cgmerge" :: cgs =>
+    match cgs.mapM parseCG? with
+    | some l => (st, showCG (Obao.ControlGroup.cgOf l))
+    | none => (st, "bad-op")
   | "policy" :: name :: rules =>
     match rules.mapM parseSrcRule with
     | none => (st, "bad-op")
